@@ -412,6 +412,34 @@ void h_setup_worker(void) {
   VERIF_CANARY();
 }
 
+/* ---------------- a worker OS thread of rank > 0: myth_worker_start_ex_body ----------------
+ * The descriptor array comes from plain malloc (not cleared).  myth_cleanup_worker frees whatever env->sched.stack holds,
+ * so a worker that allocates no scheduler stack must say so before it can reach the clean-up ("the workers stop
+ * cleanly").  myth_setup_worker (checked in jobs c15.setup_worker.*) does not write that field: its stand-in here leaves
+ * the field as malloc handed it out. */
+int g_ws_setup, g_ws_loop, g_ws_cleanup; char WS_JUNK[8];
+void verif_ws_setup(int rank) {
+  __CPROVER_assert(rank == 1 && g_ws_setup == 0, "worker start: sets up its own descriptor, once");
+  g_ws_setup = 1; g_worker_rank = rank; POOL[1].rank = rank; POOL[1].exit_flag = 0; POOL[1].this_thread = 0;
+}
+void ws_sched_loop_contract(void)
+  __CPROVER_requires(g_ws_setup == 1 && g_ws_loop == 0 && g_ws_cleanup == 0 && "the scheduling loop runs after the set-up, before the clean-up")
+  __CPROVER_assigns(g_ws_loop) __CPROVER_ensures(g_ws_loop == 1);
+void verif_ws_cleanup(int rank) {
+  __CPROVER_assert(rank == 1 && g_ws_loop == 1 && g_ws_cleanup == 0, "worker start: cleans up its own descriptor, once, after the scheduling loop has ended");
+  __CPROVER_assert(POOL[1].sched.stack == 0, "worker start (rank > 0): reaches the clean-up with NO scheduler stack recorded (the clean-up frees whatever the field holds; the descriptor memory is not cleared by the allocator)");
+  g_ws_cleanup = 1;
+}
+void h_worker_start(void) {
+  g_nw = 2; g_pool = &POOL[0]; g_attr.n_workers = 2; g_envs = g_pool; g_envs_sz = 2;
+  g_worker_rank = nondet_int();
+  POOL[1].sched.stack = nondet_bool() ? (void *)WS_JUNK : (void *)0;      /* what malloc left there */
+  g_ws_setup = g_ws_loop = g_ws_cleanup = 0;
+  myth_worker_start_ex_body(1);
+  __CPROVER_assert(g_ws_setup == 1 && g_ws_loop == 1 && g_ws_cleanup == 1, "worker start: set-up, scheduling loop, clean-up -- each exactly once, in this order");
+  VERIF_CANARY();
+}
+
 /* worker index and count */
 void h_worker_num(void) {
   setup_workers();
